@@ -8,11 +8,7 @@
 
 package storage
 
-//@ uninterp WithdrawalKeyId(h mathint) mathint
-//@ axiom forall h mathint :: {WithdrawalKeyId(h)} keykind(WithdrawalKeyId(h)) == 16 && keyhid(WithdrawalKeyId(h)) == h
-//@ assume func graphWithdrawalClaimKey
-//@   modifies nothing
-//@   ensures fresh(result) && kvkey(result) == WithdrawalKeyId(kvval(tx))
+//@ -- (WithdrawalKeyId, graphWithdrawalClaimKey: zz_contracts_keyspace_verif.go)
 
 //@ -- ClaimPre: the submission a withdrawal claim refers to is stored and finalized (with a well-formed 32-byte record)
 //@ spec ClaimPre(t badger.Txn, ref crypto.Hash) bool = HasTx(t, ref) && Finalized(t, ref) && badger.vallen(badger.kvget(t, FK(ref))) == 32
